@@ -134,7 +134,8 @@ mpc2k_write_header (SF_PRIVATE *psf, int calc_length)
 	psf_binheader_writef (psf, "e11b", BHW1 (1), BHW1 (4), BHWv (sample_name), BHWz (HEADER_NAME_LEN)) ;
 	psf_binheader_writef (psf, "e111", BHW1 (100), BHW1 (0), BHW1 ((psf->sf.channels - 1) & 1)) ;
 	psf_binheader_writef (psf, "et4888", BHW4 (0), BHW8 (psf->sf.frames), BHW8 (psf->sf.frames), BHW8 (psf->sf.frames)) ;
-	psf_binheader_writef (psf, "e112", BHW1 (0), BHW1 (1), BHW2 ((uint16_t) psf->sf.samplerate)) ;
+	/* The sample rate is a 16 bit field, so larger rates are stored as 65535. */
+	psf_binheader_writef (psf, "e112", BHW1 (0), BHW1 (1), BHW2 ((uint16_t) SF_MIN (psf->sf.samplerate, 0xFFFF))) ;
 
 	/* Always 16 bit little endian data. */
 	psf->bytewidth = 2 ;
